@@ -384,7 +384,7 @@ class Run:
             h = hashlib.sha1(json.dumps([ob.name, assignments]).encode()).hexdigest()[:10]
             ob.replay_path = os.path.join(rp, '%s-%s.json' % (self.prop, h))
             json.dump(dict(property=self.prop, obligation=ob.name, harness=ob.harness, defines=ob.defines,
-                           units=[u.name for u in ob.units], failed=ob.failed_props[:5], assignments=assignments,
+                           units=[u.name for u in ob.units], failed=ob.failed_props[:5], assignments=assignments, replay_envs=envs,
                            replay_result=ob.replay_result), open(ob.replay_path, 'w'), indent=1)
         return ob.replay_result
 
